@@ -19,6 +19,7 @@ CLAIMED = {
         "(given 1-3 atoms bonded to the oxygen - shown necessary, and checked at every real finalize); a Water ends with its names plus H1 and H2 once each and no LP*; a protonated carboxyl group (Carboxylic on ASH / GLH: doubled candidates, elimination, renaming, O-swap through the temporary name FLIP) ends with exactly OD1, OD2, HD2 (OE1, OE2, HE2) and everything else untouched, for every construction order and outcome sequence (closure table checked by the kernel, lifted to any residue by a simulation argument); cleanup removes the doubled carboxylic proton exactly when both are present; "
         "one residue through repair_heavy: every heavy atom of the reference present afterwards, every input atom kept or reported deleted, atoms the reference knows always kept, no duplicates; one residue through add_hydrogens: with every placement succeeding no reference hydrogen missing (except HG of a bridged cysteine), nothing removed, only reference hydrogens added; "
         "the COMPOSITION of the stages on one residue (Model/Stages.lean over the apply_patch model and the generated topology): terminus patches; repair_heavy; CYX / pKa-state patches and remove_hydrogens; add_hydrogens - whatever atoms the input residue held, in any order, with any extras, it ends with exactly the atoms of its final run-time reference, each once (stages_exact, stages_exact_norepair), no heavy atom disappears without a report (stages_accounted, early_keeps); the data hypotheses are discharged on this run's topology by kernel-checked tables (stages_exact_on_data); a 230-combination kernel table (runtime_reference_is_named_definition) shows that the reference apply_patch builds at run time has the atoms of the definition Definition.__init__ built at load time under the final state's name, so the residue ends with exactly the atoms of the definition it is named after (stages_reach_named_definition - the link to C02's charge table); "
+        "HIS.set_state (the last atom-set change of a run) drops exactly one ring proton of a neutral histidine for every flag combination, keeps both of a doubly protonated one, touches nothing else and names the state its atoms spell (his_state_clean); "
         "found and missing atoms of apply_force_field are together a permutation of all atoms (from C01). Tie: the translator's topology objects against the real Definition, exhaustively (194 definitions, 176 patches: atoms, coordinates, bonds, removals, alternative names, dihedrals); the stage sequence of EVERY residue of every run is replayed in the model on the model's own state (names and reference after every stage must agree, and nothing else may change a residue between those stages); trace replay - every method call on the real Flip/Alcoholic/Water objects and cleanup is logged with the residue's name list before/after, return value, fixed flag and bond count, and replayed in the model. "
         "Oracle on real runs: final names of every fully parameterised residue (no duplicate, no LP*/...FLIP, exactly the atom set of its run-time reference or of the definition its final state is named after, one carboxylic proton); every input heavy atom of a recognised residue kept exactly once unless its deletion was reported; found U missing = all, PQR lines = found.",
         note="partial: the neutral-C-terminus variant of Carboxylic and the retry order inside repair_heavy are covered by the final-state oracle on the runs made, not by theorems; which residue gets which patch is modelled under C02/C06/C13; no nucleic-acid structure offline (5'-phosphate removal not exercised)",
